@@ -95,6 +95,11 @@ type c11Lca struct {
 	Basic   bool             `json:"basic"`
 }
 
+type c11Params struct {
+	A int64 `json:"A"` // MaxAgeNumBlocks
+	D int64 `json:"D"` // MaxAgeDuration (seconds)
+}
+
 type c11Pair struct {
 	H    int64  `json:"h"`
 	Val  string `json:"val"`
@@ -107,14 +112,14 @@ type c11Pair struct {
 }
 
 type c11Ctx struct {
-	N      int                 `json:"N"`
-	H0     int64               `json:"H0"`
-	Names  []string            `json:"names"` // all key names, in ADDRESS order
-	Vals   []map[string]int64  `json:"vals"`  // vals[h-1] = validator set of height h
-	Time   []int64             `json:"time"`  // time[h-1] = block time of height h (seconds)
-	Signed [][]string          `json:"signed"`
-	A      int64               `json:"A"` // MaxAgeNumBlocks
-	D      int64               `json:"D"` // MaxAgeDuration (seconds)
+	N      int                `json:"N"`
+	H0     int64              `json:"H0"`
+	Names  []string           `json:"names"` // all key names, in ADDRESS order
+	Vals   []map[string]int64 `json:"vals"`  // vals[h-1] = validator set of height h
+	Time   []int64            `json:"time"`  // time[h-1] = block time of height h (seconds)
+	Signed [][]string         `json:"signed"`
+	// params[h-1] = evidence age limits of the sm.State with LastBlockHeight h
+	Params []c11Params         `json:"params"`
 	Dv     map[string]*c11Dv   `json:"dv"`
 	Lca    map[string]*c11Lca  `json:"lca"`
 	Pairs  map[string]*c11Pair `json:"pairs"`
@@ -247,6 +252,7 @@ type c11World struct {
 	keyName map[string]string // real key suffix -> abstract key
 	pairs   map[string][2]*types.Vote
 	saved   int64
+	startH  int64    // height of the state the running pool was created from
 	buf     []string // pair ids in the consensus buffer (ghost kept by the driver for display only)
 	tickets map[string]*c11Ticket
 	maxW    int64
@@ -321,27 +327,38 @@ func (w *c11World) timeAt(h int64) int64 {
 	return w.ctx.Time[h-1]
 }
 
-func (w *c11World) params() tmproto.ConsensusParams {
+func (c *c11Ctx) paramsAt(h int64) c11Params {
+	if h < 1 {
+		h = 1
+	}
+	if int(h) > len(c.Params) {
+		h = int64(len(c.Params))
+	}
+	return c.Params[h-1]
+}
+
+// consensus params of the state with LastBlockHeight h (the application changes the evidence
+// age limits through EndBlock)
+func (w *c11World) params(h int64) tmproto.ConsensusParams {
 	p := *types.DefaultConsensusParams()
-	p.Evidence.MaxAgeNumBlocks = w.ctx.A
-	p.Evidence.MaxAgeDuration = time.Duration(w.ctx.D) * time.Second
+	p.Evidence.MaxAgeNumBlocks = w.ctx.paramsAt(h).A
+	p.Evidence.MaxAgeDuration = time.Duration(w.ctx.paramsAt(h).D) * time.Second
 	p.Evidence.MaxBytes = 1 << 20
 	return p
 }
 
 func (w *c11World) stateAt(h int64) sm.State {
 	st := sm.State{
-		Version:                          sm.InitStateVersion,
-		ChainID:                          c11ChainID,
-		InitialHeight:                    1,
-		LastBlockHeight:                  h,
-		LastBlockTime:                    c11T(w.timeAt(h)),
-		Validators:                       w.vals[h+1].Copy(),
-		NextValidators:                   w.vals[h+2].Copy(),
-		ConsensusParams:                  w.params(),
-		LastHeightConsensusParamsChanged: 1,
-		AppHash:                          c11Hash("app", strconv.FormatInt(h, 10)),
-		LastResultsHash:                  c11Hash("res", strconv.FormatInt(h, 10)),
+		Version:         sm.InitStateVersion,
+		ChainID:         c11ChainID,
+		InitialHeight:   1,
+		LastBlockHeight: h,
+		LastBlockTime:   c11T(w.timeAt(h)),
+		Validators:      w.vals[h+1].Copy(),
+		NextValidators:  w.vals[h+2].Copy(),
+		ConsensusParams: w.params(h),
+		AppHash:         c11Hash("app", strconv.FormatInt(h, 10)),
+		LastResultsHash: c11Hash("res", strconv.FormatInt(h, 10)),
 	}
 	if h >= 1 {
 		st.LastValidators = w.vals[h].Copy()
@@ -355,6 +372,16 @@ func (w *c11World) stateAt(h int64) sm.State {
 		c--
 	}
 	st.LastHeightValidatorsChanged = c
+	// the params of state h validate block h+1; they changed at the first height of the run of
+	// equal values that ends there
+	k := h
+	for k > 1 && w.ctx.paramsAt(k-1) == w.ctx.paramsAt(k) {
+		k--
+	}
+	st.LastHeightConsensusParamsChanged = k + 1
+	if k <= 1 {
+		st.LastHeightConsensusParamsChanged = 1
+	}
 	return st
 }
 
@@ -467,6 +494,7 @@ func newC11World(t *testing.T, ctx *c11Ctx) *c11World {
 		}
 	}
 	w.saved = ctx.H0
+	w.startH = ctx.H0
 	w.bs.setTip(ctx.H0)
 	w.edb = dbm.NewMemDB()
 	w.buildItems()
@@ -752,6 +780,8 @@ func (w *c11World) project() map[string]interface{} {
 	nbuf := len(p.consensusBuffer)
 	h := p.state.LastBlockHeight
 	lt := p.state.LastBlockTime
+	pA := p.state.ConsensusParams.Evidence.MaxAgeNumBlocks
+	pD := int64(p.state.ConsensusParams.Evidence.MaxAgeDuration / time.Second)
 	p.mtx.Unlock()
 	buf := append([]string{}, w.buf...)
 	if nbuf != len(buf) {
@@ -775,7 +805,8 @@ func (w *c11World) project() map[string]interface{} {
 		"pending":  pend, "committed": comm, "list": list, "size": int64(p.Size()),
 		"buffer": buf, "height": h, "ltime": int64(lt.Sub(c11Base) / time.Second),
 		"pruneH": p.pruningHeight, "pruneT": int64(p.pruningTime.Sub(c11Base) / time.Second),
-		"tip": w.bs.Height(), "saved": w.saved,
+		"tip": w.bs.Height(), "saved": w.saved, "startH": w.startH,
+		"A": pA, "D": pD,
 	}
 }
 
@@ -937,6 +968,7 @@ func (w *c11World) exec2(out *c11Writer, run int, op c11Op) (bool, map[string]in
 			ids = []string{}
 		}
 		ev["ev"], ev["to"], ev["ids"], ev["crash"] = "Update", to, ids, op.Crash
+		ev["A"], ev["D"] = w.ctx.paramsAt(to).A, w.ctx.paramsAt(to).D
 	case "Pending":
 		mb := op.Bytes
 		if !op.Real {
@@ -968,6 +1000,7 @@ func (w *c11World) exec2(out *c11Writer, run int, op c11Op) (bool, map[string]in
 		}
 		w.pool = p
 		w.buf = nil
+		w.startH = w.saved
 		ev["ev"] = "Restart"
 		c11Outcome(ev, nil, "")
 	case "AddBegin":
